@@ -73,3 +73,17 @@ let fapdu toks =
   | _ -> failwith "fapdu args"
 
 let () = register "fapdu" fapdu
+
+(* ---- ownership acceptor (coq/Fault/SendOwner.v): fasend <flags,flags,..|->, flags = 4 chars
+   0/1: mid valid, PDU still allocated, in sendqueue, in delayqueue -> one 0/1 per tuple *)
+let fasend toks =
+  match toks with
+  | [t] ->
+      if t = "-" then "-" else
+        String.concat "" (List.map (fun s ->
+            let b i = s.[i] = '1' in
+            if fa_obs_ok (((b 0, b 1), b 2), b 3) then "1" else "0")
+          (String.split_on_char ',' t))
+  | _ -> failwith "fasend args"
+
+let () = register "fasend" fasend
